@@ -4,6 +4,7 @@ import (
 	"crypto/md5"
 	"errors"
 	"fmt"
+	"math"
 	"sort"
 	"sync"
 	"time"
@@ -57,6 +58,12 @@ type msg struct {
 func New(fun string, matcher matcher.Matcher, outFmt string, cache bool, interval, wait uint, dropRaw bool, out chan []byte) (*Aggregator, error) {
 	if interval == 0 {
 		return nil, errors.New("aggregation interval must be at least 1 second")
+	}
+	// interval and wait become time.Durations below: a value that does not fit overflows, possibly to a period of
+	// exactly 0 (interval = k*2^55), on which the ticker goroutine divides
+	const maxSeconds = uint(math.MaxInt64 / int64(time.Second))
+	if interval > maxSeconds || wait > maxSeconds {
+		return nil, fmt.Errorf("aggregation interval and wait must be at most %d seconds", maxSeconds)
 	}
 	ticker := clock.AlignedTick(time.Duration(interval)*time.Second, time.Duration(wait)*time.Second, 2)
 	return NewMocked(fun, matcher, outFmt, cache, interval, wait, dropRaw, out, 2000, time.Now, ticker)
